@@ -441,4 +441,10 @@ def run(facts, rep, tier, ctx):
     for w_ in (ws, wa):
         if w_.present():
             _c05.is_kind_rules(facts, _c05._P5(rep if not w_.asyncw else _Prefixed(rep, "A"), "R10.14"), w_, D10)
+    # R10.15 nothing is created inside a removed directory: the overlay's "does the parent exist" is the marker-aware union lookup
+    # (a probe of the layers themselves finds the lower copy the marker hides, and the create brings entries back below a path
+    # that stays absent) — C09 R09.2
+    for w15 in (ws, World(facts, True)):
+        if w15.present():
+            c09.materialisation_rules(facts, rep if not w15.asyncw else _Prefixed(rep, "A"), w15, rule="R10.15/R09.2")
     rep.assume("the reserved names ('.whiteout', '*_wo') are not used by callers (excluded by the property)")
